@@ -16,10 +16,14 @@
    pair (c, int_typed): the label it is equal to (Python ==/hash) and whether its Python class is an
    integer type (int, bool, numpy integer) -- the only thing besides equality the code looks at
    (`isinstance(value, INT_TYPES)` on the map-less fast paths). *)
-Require Import SF.Prelude SF.PySlice.
+Require Import SF.Prelude SF.PySlice Gen.Gen_c02.
 
 Definition iota (n : nat) : list Z := map Z.of_nat (seq 0 n).
 Definition zlen {A} (l : list A) : Z := Z.of_nat (length l).
+
+(* Python class of a presented key, as far as the map-less fast paths can tell keys apart:
+   int / numpy integer; bool; None; anything else (str, float, tuple, date ...) *)
+Inductive kclass := KInt | KBool | KNone | KOther.
 
 Section Flat.
   Variable C : Type.
@@ -27,7 +31,9 @@ Section Flat.
   Variable of_Z : Z -> C.            (* the label that is the integer z *)
   Variable to_Z : C -> option Z.     (* Some z iff the label equals the integer z *)
 
-  Definition key := (C * bool)%type.
+  Definition key := (C * kclass)%type.
+  (* isinstance(value, INT_TYPES): bool is a subclass of int *)
+  Definition int_typed (k : key) : bool := match snd k with KInt | KBool => true | _ => false end.
 
   (* ------------------------------------------------------------------ specification *)
   Fixpoint memb (x : C) (l : list C) : bool :=
@@ -101,26 +107,36 @@ Section Flat.
   Definition M_index_init (l : list C) : res index :=
     match am_build l with
     | Ok m => Ok (mk_index l (Some m))
-    | Err _ => Err "ErrorInitIndex"
+    | Err _ => Err gen_init_dup_error        (* regenerated from Index.__init__: "ErrorInitIndex" *)
     end.
 
   (* IndexAutoFactory: labels = positions = arange(n), no map *)
   Definition M_index_auto (n : nat) : index := mk_index (map of_Z (iota n)) None.
 
   (* the integer a key denotes on the map-less paths: numpy accepts int/bool/np.integer only *)
-  Definition key_int (k : key) : option Z := if snd k then to_Z (fst k) else None.
+  Definition key_int (k : key) : option Z := if int_typed k then to_Z (fst k) else None.
+
+  (* `self._positions[key]` followed by `return key` (index.py:986-1006) on an arange(n):
+     an int is bounds-checked by NumPy with negative wrap-around (and the KEY, not the element, is
+     returned); a bool is a NumPy mask scalar and never raises; None is np.newaxis and never raises
+     (the key None is returned: not a position at all); anything else is an IndexError -> KeyError *)
+  Definition positions_getitem (n : Z) (k : key) : res Z :=
+    match snd k with
+    | KInt => match to_Z (fst k) with
+              | Some z => if (- n <=? z) && (z <? n) then Ok z else Err "KeyError"
+              | None => Err "KeyError"
+              end
+    | KBool => match to_Z (fst k) with Some z => Ok z | None => Err "KeyError" end
+    | KNone => Err "NotAPosition"
+    | KOther => Err "KeyError"
+    end.
 
   (* Index.loc_to_iloc, element key.  index.py:982-1008 (no map: self._positions[key], so a negative
      integer in [-n, 0) is answered) and LocMap.loc_to_iloc index.py:262-265 (map lookup) *)
   Definition M_loc_to_iloc (ix : index) (k : key) : res Z :=
     match ix_map ix with
     | Some m => match am_get m (fst k) with Some i => Ok i | None => Err "KeyError" end
-    | None =>
-        let n := zlen (ix_labels ix) in
-        match key_int k with
-        | Some z => if (- n <=? z) && (z <? n) then Ok z else Err "KeyError"
-        | None => Err "KeyError"
-        end
+    | None => positions_getitem (zlen (ix_labels ix)) k
     end.
 
   (* Index.__contains__  index.py:1148-1155 *)
@@ -213,7 +229,7 @@ Section Flat.
   Definition M_go_init (l : list C) : res go :=
     match am_build l with
     | Ok m => Ok (mk_go l l (Some m) (zlen l) false (zlen l))
-    | Err _ => Err "ErrorInitIndex"
+    | Err _ => Err gen_init_dup_error
     end.
 
   Definition M_go_auto (n : nat) : go :=
@@ -248,7 +264,7 @@ Section Flat.
      AutoMap(self._labels_mutable) is built on the promotion path (initialize_map). *)
   Definition M_go_append (g : go) (k : key) : go * res unit :=
     let g1 := M_go_touch_contains g k in
-    if M_go_contains g k then (g1, Err "KeyError")
+    if M_go_contains g k then (g1, Err gen_append_dup_error)
     else
       match g_map g1 with
       | Some m =>
@@ -262,7 +278,8 @@ Section Flat.
           if keep_auto then (mk_go (g_labels g1) mut' None (g_count g1 + 1) true (g_npos g1), Ok tt)
           else match am_build mut' with
                | Ok m => (mk_go (g_labels g1) mut' (Some m) (g_count g1 + 1) true (g_npos g1), Ok tt)
-               | Err e => (mk_go (g_labels g1) mut' None (g_count g1) (g_recache g1) (g_npos g1), Err e)
+               | Err e => (mk_go (g_labels g1) (if gen_go_push_before_map then mut' else g_mut g1) None
+                                 (g_count g1) (g_recache g1) (g_npos g1), Err e)
                end
       end.
 
@@ -296,12 +313,7 @@ Section Flat.
   Definition M_go_lookup (g : go) (k : key) : res Z :=
     match g_map g with
     | Some m => match am_get m (fst k) with Some i => Ok i | None => Err "KeyError" end
-    | None =>
-        let n := g_npos g in           (* self._positions[key] WITHOUT a _recache check (index.py:986) *)
-        match key_int k with
-        | Some z => if (- n <=? z) && (z <? n) then Ok z else Err "KeyError"
-        | None => Err "KeyError"
-        end
+    | None => positions_getitem (g_npos g) k   (* self._positions[key] WITHOUT a _recache check (index.py:986) *)
     end.
 
   (* the harness probes loc_to_iloc and `in` FIRST (on the state the history left), then the readers *)
@@ -349,7 +361,7 @@ Section Flat.
   Definition go_key_ok (g : go) (k : key) : bool :=
     match g_map g with
     | Some _ => true
-    | None => snd k || negb (memb (fst k) (g_mut g))
+    | None => int_typed k || negb (memb (fst k) (g_mut g))
     end.
 
   Fixpoint go_extend_dom (g : go) (ks : list key) : bool :=
@@ -387,7 +399,7 @@ Arguments OpAppend {C}. Arguments OpExtend {C}. Arguments OpTouch {C}.
 Arguments memb {C}. Arguments nodupb {C}. Arguments index_of {C}. Arguments S_lookup {C}.
 Arguments S_contains {C}. Arguments S_observe {C}. Arguments S_index {C}.
 Arguments am_get {C}. Arguments am_add {C}. Arguments am_extend {C}. Arguments am_build {C}.
-Arguments M_index_init {C}. Arguments M_index_auto {C}. Arguments key_int {C}.
+Arguments int_typed {C}. Arguments positions_getitem {C}. Arguments M_index_init {C}. Arguments M_index_auto {C}. Arguments key_int {C}.
 Arguments M_loc_to_iloc {C}. Arguments M_contains {C}. Arguments M_observe {C}.
 Arguments M_index {C}. Arguments M_auto {C}. Arguments S_auto {C}.
 Arguments M_loc_to_iloc_list {C}. Arguments S_lookup_list {C}. Arguments loc_slice {C}.
